@@ -274,8 +274,52 @@ def generate() -> str:
     assign_shape('aac_parse_src', AA.from_bytes.__func__, aac_f, 'data')
     ser_shape('aac_ser_src', AA.__bytes__, aac_f, None, 6, outer_mask=True)
     out.extend(_sdp_tables())
+    out.append(_sdp_list_exits())
     out.append('')
     return '\n'.join(out)
+
+
+def _sdp_list_exits():
+    """the exit paths of DataElementParser._list_from_bytes in source order:
+    (0 = return | 1 = raise, 1 if after `self.depth += 1`, 1 if after `self.depth -= 1`).
+    The nesting counter must be restored on every return that follows the increment."""
+    from bumble import sdp
+    node = _fn_ast(sdp.DataElementParser._list_from_bytes)
+    incs = decs = 0
+    exits = []
+
+    def is_depth_aug(st, op):
+        return (isinstance(st, ast.AugAssign) and isinstance(st.op, op) and isinstance(st.target, ast.Attribute)
+                and isinstance(st.target.value, ast.Name) and st.target.value.id == 'self' and st.target.attr == 'depth'
+                and isinstance(st.value, ast.Constant) and st.value.value == 1)
+
+    def walk(stmts):
+        nonlocal incs, decs
+        for st in stmts:
+            if is_depth_aug(st, ast.Add):
+                incs += 1
+            elif is_depth_aug(st, ast.Sub):
+                decs += 1
+            elif isinstance(st, ast.Return):
+                exits.append((0, int(incs > 0), int(decs > 0)))
+            elif isinstance(st, ast.Raise):
+                exits.append((1, int(incs > 0), int(decs > 0)))
+            elif isinstance(st, (ast.If, ast.While, ast.For)):
+                walk(st.body)
+                walk(st.orelse)
+            elif isinstance(st, (ast.Try, ast.With, ast.Match)):
+                raise ShapeError('DataElementParser._list_from_bytes: try / with / match statements are not modelled')
+            else:
+                for sub in ast.walk(st):
+                    if isinstance(sub, ast.Attribute) and sub.attr == 'depth' and isinstance(sub.ctx, ast.Store):
+                        raise ShapeError(f'DataElementParser._list_from_bytes: the nesting counter is written by {ast.unparse(st)}')
+    walk(node.body)
+    if incs != 1 or decs != 1:
+        raise ShapeError(f'DataElementParser._list_from_bytes: {incs} increments and {decs} decrements of self.depth')
+    if not isinstance(node.body[-1], ast.Return):
+        raise ShapeError('DataElementParser._list_from_bytes: does not end with a return')
+    return ('Definition sdp_list_exits_src : list (Z * Z * Z) := ['
+            + '; '.join('(' + ', '.join(map(str, e)) + ')' for e in exits) + '].')
 
 
 def _sdp_tables():
